@@ -88,7 +88,8 @@ def run(ck):
                 found += 1
                 if key in reported:
                     continue
-            reported.add(key)
+            if fid is None:      # a listed finding never hides a later unlisted violation of the same class
+                reported.add(key)
             ck.violation({"kind": kind, "finding": fid, "what": what, "modules": names, "last_module_wgsl": unq(s[1:-1])[:6000],
                           "how": "outputs compared byte for byte with the reference compilation (fresh back end / back end run alone / "
                                  "first run), modules compared with reflect.DeepEqual against a freshly lowered twin"}, found_input=True)
